@@ -180,7 +180,7 @@ func (c *vCluster) stopAll() {
 
 func TestVerifC07RaftHistories(t *testing.T) {
 	stats := verifkit.For("C07", "TestVerifC07RaftHistories",
-		"(a) a real 3-node meta cluster (hashicorp/raft + boltdb + file snapshots, 300 ms election timeout) driven by generated histories of uniquely named client commands (create/drop database, create user, create retention policy), node kills, restarts, full restarts and forced raft snapshots; a command whose client call returned nil is acknowledged and must be reflected in the final state of every meta node and of every client cache after a final full restart. non-trivial = >=1 acknowledged command before and >=1 after a leader loss or full restart, or a forced snapshot followed by a restart; distinct = hash of the action sequence")
+		"(a) a real 3-node meta cluster (hashicorp/raft + boltdb + file snapshots, 300 ms election timeout) driven by generated histories of uniquely named client commands (create/drop database, create user, create retention policy), node kills, restarts, full restarts and forced raft snapshots; a command whose client call returned nil is acknowledged and must be reflected in the final state of every meta node and of every client cache after a final full restart, and replicas that have all applied the final barrier command must hold equal metadata. non-trivial = >=1 acknowledged command before and >=1 after a leader loss or full restart, or a forced snapshot followed by a restart; distinct = hash of the action sequence")
 	defer stats.Flush()
 	rapid.Check(t, func(rt *rapid.T) {
 		dir, err := os.MkdirTemp("", "c07raft")
